@@ -3,9 +3,14 @@
    a regex that cannot match empty): tokenize yields exactly the pieces of input between the spans
    the scan visits (leading, trailing and adjacent empty pieces included), and replace_all with a
    literal replacement returns those same pieces joined by the replacement - both loops are driven
-   by one and the same sequence of spans.  Partial: the analyze state machine and the '$0' identity
-   (which goes through the expansion loop) are not yet proved. *)
-From RX Require Import Base.Prelude Model.Engine Model.Matcher Model.Api Proofs.ScanFacts.
+   by one and the same sequence of spans.  analyze: whenever the iteration the correspondence check
+   executes (Model/Run.v run_analyze) finishes, the texts of its entries - the String leaves of the
+   Match forests and the NonMatch strings - concatenate, in order, to the input; this needs of the
+   matcher good_step and that the groups it records end inside the reported match (both are
+   interface facts of ReMatcher::matches, proved on the engine fragment only).
+   Partial: the '$0' identity (which goes through the expansion loop) is not yet proved, and the
+   two interface facts are hypotheses. *)
+From RX Require Import Base.Prelude Model.Engine Model.Matcher Model.Api Model.Run Proofs.ScanFacts Proofs.AnalyzeFacts Proofs.AnalyzeIterFacts.
 
 Theorem C04_tokenize_pieces_partial :
   forall matchf input, good_step matchf input ->
@@ -21,5 +26,26 @@ Theorem C04_replace_joins_pieces_partial :
       = Ok (result ++ join repl (pieces input (scan matchf input (S k) pos s) pos)).
 Proof. exact replace_loop_literal. Qed.
 
+Theorem C04_analyze_texts_partial :
+  forall re input l,
+    good_step (matches (r_prog re) input) input ->
+    (forall pos s s', pos <= length input -> matches (r_prog re) input pos s = MTrue s' -> caps_inside s') ->
+    run_analyze re input = Ok (l, TDone) ->
+    flat_map atext l = input.
+Proof. intros re input l G GP H. exact (proj1 (run_analyze_text re input l G GP H)). Qed.
+
+(* the same over an abstract matcher and tree builder, from any fuel *)
+Theorem C04_analyze_iterator_partial :
+  forall matchf proc input (P : mstate -> Prop), good_step matchf input ->
+    (forall pos s s', pos <= length input -> matchf pos s = MTrue s' -> P s') ->
+    (forall s a b v, P s -> get_pstart s 0 = Some a -> get_pend s 0 = Some b -> a < b -> b <= length input ->
+       proc s (slice input a b) = Ok v -> vtext v = slice input a b) ->
+    forall fuel s l,
+      an_all matchf proc input fuel {| a_next := None; a_prev := Some 0; a_skip := false; a_ms := s |} = Ok l ->
+      flat_map atext l = input.
+Proof. intros matchf proc input P G GP Hp fuel s l H. exact (proj1 (analyze_partition matchf proc input G P GP Hp fuel s l H)). Qed.
+
 Print Assumptions C04_tokenize_pieces_partial.
 Print Assumptions C04_replace_joins_pieces_partial.
+Print Assumptions C04_analyze_texts_partial.
+Print Assumptions C04_analyze_iterator_partial.
